@@ -27,6 +27,10 @@ class Model:
             self.p.kill()
 
 # ------------------------------------------------------------------ trace parsing
+LIFE_PREFIXES = ('BACKUP', 'BSCAN', 'COPY', 'COPYSCAN', 'LSDIR', 'WRONGCMP', 'FAILOPEN', 'LOCK2')
+LIFE_REOPEN_OPS = ('copydb', 'wrongcmp', 'failopen')       # close + ... + open: a `reopen` for the engine model
+LDB_INVALID = 30004
+
 def parse_trace(text):
     calls = []; cur = None
     for line in text.split('\n'):
@@ -56,6 +60,8 @@ def parse_trace(text):
             cur['layout'] = line[7:]
         elif line.startswith('DIR'):
             cur['dir'] = line[3:].split()
+        elif line.split(' ', 1)[0] in LIFE_PREFIXES:
+            cur.setdefault('life', []).append(line)      # lifecycle commands (C20, harness/k2_life.h)
         elif line.startswith('RET '):
             cur['ret'] = line[4:]
     return calls
@@ -143,8 +149,11 @@ def validate(calls, ops, opts, model_exe, res, keys_known, check_every_layout=Tr
     opened = False
     repaired = False
     gc_clean = True       # the last obsolete-file removal ran while no iterator pinned an old version
+    backups = {}          # C20: backup slot -> model view at the moment the backup was taken
+    lk_open = False       # C20: the lock model (Lifecycle.v lk_step) has a handle open on the directory
     try:
         m.ask('e_init %d' % (1 if rev else 0))
+        m.ask('l_init')
         for call, opline in zip(calls, ops):
             res.stats['calls'] += 1
             if len(res.problems) >= max_problems:
@@ -241,8 +250,83 @@ def validate(calls, ops, opts, model_exe, res, keys_known, check_every_layout=Tr
                             res.problem('meta-mismatch', call['idx'], file=ad['num'], recorded=ad['bounds'],
                                         actual=ik(es_[0]) + '/' + ik(es_[-1]))
 
+            # ---- lifecycle (C20): lock model, backups, copies, refused opens
+            if name in ('open', 'reopen', 'repair', 'close') + LIFE_REOPEN_OPS or name in ('backup', 'bscan', 'lock2'):
+                life = {}
+                for l in call.get('life', []):
+                    life.setdefault(l.split(' ', 1)[0], []).append(l.split(' ', 1)[1] if ' ' in l else '')
+                def kvs(t):
+                    return dict(x.split('=', 1) for x in t.split(' ') if '=' in x)
+                def other_scan(t):
+                    # "open=<rc> <entries> status=<n>" -> (rc, entries, status)
+                    head, status = t.rsplit(' status=', 1); o, ents = head.split(' ', 1)
+                    return int(o.split('=')[1]), ents, status
+                def lock(cmd):
+                    return m.ask('%s db' % cmd).split(' ')[0]
+                res.stats['life_' + name] = res.stats.get('life_' + name, 0) + 1
+                if name == 'close':
+                    if lk_open: lock('l_close'); lk_open = False
+                elif name == 'lock2' and ret != 'closed':
+                    kv = kvs(life['LOCK2'][0]); pred = lock('l_open')
+                    if pred != 'locked' or int(kv['rc']) == 0:
+                        res.problem('lock-not-exclusive', call['idx'], op=opline, implementation=life['LOCK2'][0], model=pred)
+                        if pred.startswith('opened'): lock('l_close'); lock('l_open')
+                    if int(kv['held_before']) == 1 and int(kv['held_after']) != 1:
+                        res.problem('lock-dropped-by-failed-open', call['idx'], op=opline, implementation=life['LOCK2'][0],
+                                    detail='the failed second open released the record lock of the first handle')
+                elif name == 'backup' and ret != 'closed':
+                    mv = m.ask('e_view -'); kv = kvs(life['BACKUP'][0])
+                    if int(kv['rc']) != 0 or 'BSCAN' not in life:
+                        res.problem('backup-contents', call['idx'], op=opline, detail='ldb_backup failed: ' + life['BACKUP'][0])
+                    else:
+                        orc, ents, status = other_scan(life['BSCAN'][0])
+                        if orc != 0 or ents != mv or status != '0':
+                            res.problem('backup-contents', call['idx'], op=opline, implementation=life['BSCAN'][0][:2000], spec=mv[:2000])
+                        backups[int(a[1])] = mv
+                elif name == 'bscan':
+                    t = life.get('BSCAN', ['none'])[0]
+                    if int(a[1]) in backups:
+                        if t == 'none':
+                            res.problem('backup-not-independent', call['idx'], op=opline, detail='backup directory disappeared')
+                        else:
+                            orc, ents, status = other_scan(t)
+                            if orc != 0 or ents != backups[int(a[1])] or status != '0':
+                                res.problem('backup-not-independent', call['idx'], op=opline, implementation=t[:2000],
+                                            spec=backups[int(a[1])][:2000])
+                else:
+                    # open / reopen / repair / copydb / wrongcmp / failopen: the directory is closed first
+                    if lk_open: lock('l_close'); lk_open = False
+                    if name == 'copydb':
+                        mv = m.ask('e_view -'); kv = kvs(life['COPY'][0])
+                        if int(kv['rc']) != 0 or 'COPYSCAN' not in life:
+                            res.problem('copy-contents', call['idx'], op=opline, detail='ldb_copy failed: ' + life['COPY'][0])
+                        else:
+                            orc, ents, status = other_scan(life['COPYSCAN'][0])
+                            if orc != 0 or ents != mv or status != '0':
+                                res.problem('copy-contents', call['idx'], op=opline, implementation=life['COPYSCAN'][0][:2000], spec=mv[:2000])
+                    elif name == 'wrongcmp':
+                        rc = int(kvs(life['WRONGCMP'][0])['rc'])
+                        pred = int(m.ask('open_cmp %s %s' % (('reverse', 'bytewise') if rev else ('bytewise', 'reverse'))))
+                        if rc != pred or pred != LDB_INVALID:
+                            res.problem('wrongcmp-not-refused', call['idx'], op=opline, implementation=rc, model=pred)
+                        if len(life.get('LSDIR', [])) != 2 or life['LSDIR'][0] != life['LSDIR'][1]:
+                            res.problem('wrongcmp-modified-files', call['idx'], op=opline, before=life.get('LSDIR', [''])[0][:2000],
+                                        after=life.get('LSDIR', ['', ''])[-1][:2000])
+                        if lock('l_failed') != 'failed':
+                            res.problem('lock-not-released', call['idx'], op=opline, detail='lock model')
+                    elif name == 'failopen':
+                        rc = int(kvs(life['FAILOPEN'][0])['rc'])
+                        if rc == 0:
+                            res.problem('api-error', call['idx'], op=opline, detail='ldb_open with error_if_exists=1 succeeded on an existing database')
+                        if lock('l_failed') != 'failed':
+                            res.problem('lock-not-released', call['idx'], op=opline, detail='lock model')
+                    pred = lock('l_open'); lk_open = pred == 'opened'
+                    if ret.split(' ')[0] != '0' and pred == 'opened' and name in ('wrongcmp', 'failopen'):
+                        res.problem('lock-not-released', call['idx'], op=opline, implementation=ret,
+                                    detail='open after a failed open did not succeed')
+
             # ---- per call
-            if name in ('open', 'reopen', 'repair'):
+            if name in ('open', 'reopen', 'repair') + LIFE_REOPEN_OPS:
                 rkv = dict(t.split('=') for t in ret.split(' ')[1:])
                 if ret.split(' ')[0] != '0':
                     res.problem('api-error', call['idx'], detail=name + ' returned ' + ret); break
